@@ -444,9 +444,17 @@ func RunSync(caseNo int, srcDir, dstDir string, o SyncOpts) (*SyncResult, error)
 	if o.Unpriv {
 		setDacOverride(true)
 	}
-	after, err := disk.Snapshot(dstDir, false)
-	if err != nil {
-		return nil, err
+	// a destination directory that is no longer a directory (a hostile or broken transfer replaced the root itself):
+	// an observation for the monitor, not a driver failure
+	rootGone := false
+	var after model.Tree
+	if fi, lerr := os.Lstat(dstDir); lerr != nil || !fi.IsDir() {
+		rootGone = true
+	} else {
+		after, err = disk.Snapshot(dstDir, false)
+		if err != nil {
+			return nil, err
+		}
 	}
 	res.After = after
 	cbMu.Lock()
@@ -464,7 +472,7 @@ func RunSync(caseNo int, srcDir, dstDir string, o SyncOpts) (*SyncResult, error)
 	}
 	evs := []vt.Ev{begin}
 	evs = append(evs, conn.Events()...)
-	evs = append(evs, vt.Ev{"ev": "End", "after": after.Ev(), "vc": vc})
+	evs = append(evs, vt.Ev{"ev": "End", "after": after.Ev(), "vc": vc, "dstRootGone": rootGone})
 	for _, e := range evs {
 		e["case"] = caseNo
 	}
